@@ -13,6 +13,7 @@ import Driver.Cfg
 import Driver.Keys
 import Driver.Load
 import Driver.Ingest
+import Driver.Conc
 /-! Line-protocol driver: one operation per input line, one canonical result per output line. -/
 open Drv
 
@@ -159,6 +160,8 @@ def step (st : DState2) (line : String) : DState2 × String :=
   | "loss" :: args => (st, opLoss args)
   | "stat" :: args => (st, opStat st.core args)
   | "sess" :: args => (st, opSess st.core args)
+  | "chan" :: args => (st, opChan args)
+  | "tracks" :: args => (st, opTracks args)
   | _ => (st, "bad-op")
 
 partial def loop (h : IO.FS.Stream) (out : IO.FS.Stream) (st : DState2) : IO Unit := do
